@@ -70,6 +70,13 @@ def plan(tier: str) -> dict[str, Any]:
     return {"cases": 2000000 + 60000, "n_prog": 2000000, "budget_s": 1500, "min_per_shard": 1000}
 
 
+def priority_cases(tier: str) -> list[int]:
+    """the cancellation sweeps sit at the end of the index range; a spread sample of them runs first, so that a worker that is cut off
+    at its budget on a loaded machine has done its share of them (their deciding counters would otherwise stay at zero)"""
+    p = plan(tier)
+    return list(range(p["n_prog"], p["cases"], 8 if tier == "quick" else 40))
+
+
 def gen_case(idx: int, seed: int, tier: str) -> Any:
     p = plan(tier)
     rng = case_rng(PROPERTY, seed, idx)
